@@ -99,6 +99,33 @@ def h_mem(ctx, w, twin=False):
         ctx.holds("twin", r != c)
 
 
+def h_mem_width_change(ctx, w1, w2):
+    """the documented max_bit_width setter: counting continues modulo the new width"""
+    p = SeqCountProvider(w1)
+    p.max_bit_width = w2
+    ctx.holds("max_bit_width reports the new width", p.max_bit_width == w2)
+    c = ctx.int("count", 0, (1 << w2) - 1)
+    p.count = c
+    r = p.get_and_increment()
+    nxt = sym_ite(c == (1 << w2) - 1, 0, c + 1)
+    ctx.holds("after a width change: returns the count, then (count+1) mod 2^new width",
+              sym_and(r == c, p.count == nxt, next(p) == nxt))
+
+
+def h_file_width_change(ctx, w1, w2):
+    fs = Files(ctx)
+    path = fs.path()
+    n = ctx.int("n", 0, (1 << w2) - 1)
+    fs.put(path, [("dec", n), ("text", "\n")])
+    p = FileSeqCountProvider(w1, path)
+    p.max_bit_width = w2
+    e, r = call(p.get_and_increment)
+    nxt = sym_ite(n == (1 << w2) - 1, 0, n + 1)
+    ok, v = fs.first_line_value(path)
+    ctx.holds("file provider after a width change: returns n, stores (n+1) mod 2^new width", e is None and ok and sym_and(r == n, v == nxt),
+              exc_name(e))
+
+
 # ---------------------------------------------------------------- file provider
 def h_file_step(ctx, w, residue, pus=False):
     fs = Files(ctx)
@@ -198,6 +225,9 @@ def cases(tier):
                            bounds="every stored count 0..2^%d-1, residue lines %r" % (w, residue)))
         cs.append(Case("filenew-w%d" % w, "file", h_file_new, dict(w=w), bounds="fresh file, width %d" % w))
         cs.append(Case("filerange-w%d" % w, "reject", h_file_range, dict(w=w), bounds="stored numbers 0..2^%d" % (w + 2)))
+    for w1, w2 in tier_pick(tier, ((16, 14), (8, 14), (3, 1)), ((16, 14), (8, 14), (3, 1), (14, 16), (1, 8), (24, 11))):
+        cs.append(Case("mem-width-%d-to-%d" % (w1, w2), "mem", h_mem_width_change, dict(w1=w1, w2=w2), bounds="width set from %d to %d, every count" % (w1, w2)))
+        cs.append(Case("file-width-%d-to-%d" % (w1, w2), "file", h_file_width_change, dict(w1=w1, w2=w2), bounds="width set from %d to %d, every stored count" % (w1, w2)))
     cs.append(Case("mem-twin", "mem", h_mem, dict(w=3, twin=True), expect_violation=True, bounds="reachability twin"))
     cs.append(Case("file-pus", "file", h_file_step, dict(w=14, residue="", pus=True), bounds="PusFileSeqCountProvider, every count 0..16383"))
     for w in tier_pick(tier, (3, 14), (3, 8, 14, 16)):
